@@ -249,6 +249,8 @@ def same_effects(a, b):
                 cur_t, cur_p = [], []
             elif e[0] == "pending":
                 cur_p.append(e)
+            elif e[0] == "pop" and cur_t and cur_t[-1][0] == "push":
+                cur_t.pop()                 # a character pushed and popped again at once leaves the text as it was
             else:
                 cur_t.append(e)
         segs.append((tuple(cur_t), tuple(cur_p), None))
